@@ -52,6 +52,11 @@
 (*   "PrctlFallback" (never in the code; a seeded change) on ENOSYS from   *)
 (*                   seccomp(2) fall back to prctl(PR_SET_SECCOMP), which  *)
 (*                   takes no flags and covers the calling thread only     *)
+(*   "SplitOversize" (never in the code; a seeded change) a policy beyond  *)
+(*                   the kernel's program size is installed as two filters;*)
+(*                   only the first installation carries the caller's      *)
+(*                   flags (filter id 500 + fid is the first part, fid the *)
+(*                   part the probes see)                                  *)
 (*   "SupportedFlags0" (never in the code; self-test only) Supported()     *)
 (*                   probing with flags = 0 would enter strict mode        *)
 (*   "PrctlErrorSwallowed" (never in the code; a seeded change) a failing  *)
@@ -223,9 +228,17 @@ LF_Prctl ==
 \* seccomp(2) on the then-current thread and the mapping of its outcome
 LF_Seccomp ==
   /\ pc = "seccomp" /\ kind = "load"
-  /\ LET k == KFilter(m, req.flags, req.pol) IN
-     /\ kret' = [errno |-> k.errno, ret |-> k.ret, att |-> k.attach, nnpAt |-> nnp[m], flags |-> req.flags, t |-> m]
-     /\ IF k.errno = "ENOSYS" /\ "PrctlFallback" \in Dev
+  /\ LET split == "SplitOversize" \in Dev /\ req.pol = "oversize"
+         k == KFilter(m, req.flags, IF split THEN "valid" ELSE req.pol) IN
+     /\ kret' = [errno |-> k.errno, ret |-> k.ret, att |-> k.attach, nnpAt |-> nnp[m],
+                 flags |-> IF split /\ k.attach THEN req.flags \ {"TSYNC"} ELSE req.flags, t |-> m]
+     /\ IF split /\ k.attach
+        THEN \* two installations: the first with the caller's flags, the second without thread-sync
+             LET first == Append(chain[m], 500 + fid) IN
+             /\ chain' = [t \in Threads |-> IF t = m THEN Append(first, AttachId)
+                                             ELSE IF t \in threads /\ "TSYNC" \in req.flags THEN first ELSE chain[t]]
+             /\ nnp' = IF "TSYNC" \in req.flags THEN [t \in Threads |-> IF t \in threads THEN nnp[t] \/ nnp[m] ELSE nnp[t]] ELSE nnp
+        ELSE IF k.errno = "ENOSYS" /\ "PrctlFallback" \in Dev
         THEN \* prctl(PR_SET_SECCOMP, SECCOMP_MODE_FILTER): no flags, the calling thread only
              chain' = [chain EXCEPT ![m] = Append(@, AttachId)] /\ UNCHANGED nnp
         ELSE IF k.attach
